@@ -154,7 +154,8 @@ def solve_lp_interior(
         objective = -objective
 
     # Check final feasibility
-    primal_inf = sqrt(sum((sum(A_aug[i][j] * x[j] for j in range(n_total)) - b[i]) ** 2 for i in range(m)))
+    residuals = [sum(A_aug[i][j] * x[j] for j in range(n_total)) - b[i] for i in range(m)]
+    primal_inf = sqrt(sum(r * r for r in residuals))
     if primal_inf < 0.01:
         return Result(solution, objective, max_iter, max_iter, Status.FEASIBLE)
 
